@@ -12,7 +12,7 @@ META = dict(
           'TLC enumerates every small composition x every short request history (GEN) for execution by the real readers, the harness adds seeded '
           'random compositions (depth <= 3 over sections, multi, zero, limit, bit<->byte adapters, read-ahead cache, progress and context wrappers, '
           'real files) and histories of up to 14 calls, and TLC validates every recorded history. The read-ahead cache (AheadCache.tla, symbolic file bytes, pre-repair variant as witness) and '
-          'Read64/Write64 (ReadWrite64.tla, one disjunct per branch of the code, symbolic bits, all first bits x all widths 0..64) are model checked as built.'),
+          'Read64/Write64 (ReadWrite64.tla, one disjunct per branch of the code, symbolic bits, all first bits x all widths 0..64) and the byte view (IOAdapter.tla: carry buffer, Seek, ReadByte, short-reading and end-refusing sources, pre-repair Seek as witness) are model checked as built.'),
     note=('Exhaustive inside the GEN constants (evidence tlc_runs), random beyond. Denotations up to a few hundred bits per history. Short reads are '
           'allowed by the requirement, so a reader that returns fewer bits without stalling is never an alarm.'),
     technique='TLA+ denotational spec of reader terms (BitIO.tla): TLC-enumerated histories replayed on real bitio readers + TLC trace validation; AheadCache.tla MC',
@@ -103,6 +103,17 @@ def run(ctx):
     ctx.cov['readwrite64_branches_taken'] = {k: v[0] for k, v in acts.items()}
     if dead:
         raise Inconclusive('ReadWrite64 model: branches never taken (vacuous): %s' % dead)
+    # 1c. as-built model of the byte view (IOReader carry buffer, IOReadSeeker.Seek/ReadByte) as repaired; pre-repair Seek as witness
+    def io(L, short, strict, old):
+        return ('SPECIFICATION Spec\nCONSTANTS\n L = %d\n MaxRead = 3\n Short = %s\n StrictEnd = %s\n OldSeek = %s\nINVARIANT ReadsTrue\nINVARIANT Terminates\nCHECK_DEADLOCK FALSE\n'
+                % (L, short, strict, old))
+    for (L, short, strict) in ([(20, 'FALSE', 'FALSE'), (20, 'TRUE', 'TRUE'), (16, 'TRUE', 'FALSE'), (13, 'FALSE', 'TRUE')] + ([(37, 'TRUE', 'TRUE'), (40, 'FALSE', 'FALSE')] if th else [])):
+        r = ctx.tlc('IOAdapter', 'io.cfg', cfg_text=io(L, short, strict, 'FALSE'), name='mc_ioadapter_L%d_%s_%s' % (L, short[0], strict[0]), timeout=1200)
+        ctx.tlc_expect_ok(r, 'IOAdapter as built')
+    r = ctx.tlc('IOAdapter', 'iow.cfg', cfg_text=io(20, 'FALSE', 'FALSE', 'TRUE'), name='mc_ioadapter_witness', count=False)
+    ctx.cov['ioadapter_prerepair_seek_violates'] = r.violated
+    if not r.violated:
+        raise Inconclusive('IOAdapter witness variant unexpectedly holds (model vacuous?)')
     # 2. GEN: every small composition x history
     cases = []
     g = ctx.tlc('BitIOGen', 'g.cfg', cfg_text=gen_cfg(2, th, not th), name='gen_bitio', timeout=3000)
